@@ -49,6 +49,12 @@ def run(ctx):
     for k in range(3 if ctx.quick else 10):
         w = [0.1 + 0.1 * i + 0.013 * k for i in range(4)]
         boxes.append(gen.graph_request([(0, 1), (1, 2), (2, 3), (3, 0)], [x + 1.0 for x in w], [False] * 4, [0, 1, 2, 3], 3))
+    # hexagon and octagon: subsets of three / four pairwise non-adjacent edges have >= 3 connected components (the ORDER in which components
+    # are found must not leak into the float sums of the table either)
+    for k in range(2 if ctx.quick else 6):
+        for m in (6, 8):
+            w = [0.31 + 0.1 * i + 0.013 * k + 0.0007 * i * i for i in range(m)]
+            boxes.append(gen.graph_request([(i, (i + 1) % m) for i in range(m)], w, [i % 2 == 0 for i in range(m)], list(range(m)), 3))
     rb = run_harness([b for b in boxes for _ in range(8)])
     rb2 = run_harness(boxes)
     for i, b in enumerate(boxes):
@@ -96,6 +102,10 @@ def run(ctx):
     SC.corr_sample(ctx, ss[: (30 if ctx.quick else 200)])
     SC.nolog_agreement(ctx, ss[:: 3], k=20)
     SC.rng_entry_agreement(ctx, ss[:: 4], k=8)     # print_debug_info in the build where it means println!
+    # masses supplied on edges that are NOT flagged massive (and flagged edges without one): the two entry points treat edge_data alike
+    sd = S.generate(ctx, 4 if ctx.quick else 16, 2, max_e=5, max_loops=3, routings_per_graph=1, kinds=("uniform",), decouple=1.0, mass_mode="some")
+    S.run(sd)
+    SC.rng_entry_agreement(ctx, sd, k=6 if ctx.quick else 24)
     # settings combinations
     sreqs, sinfo = [], []
     nset = 8 if ctx.quick else 40
